@@ -49,3 +49,12 @@ Proof.
     (fun h f I => conj (GenPolyPEq.write_is_write V H s h f I) (GenPolyPEq.eqst_abs V _ _ (GenPolyPEq.write_is_write V H s h f I))))))))).
 Qed.
 Print Assumptions C14_source_handles.
+
+(* every OTHER member of the class template poly_p (39 of them: the arithmetic and comparison operators, operator(), load, the transforms, the
+   serialisers, every set / set_mpz overload, the big-integer conversions, the static accessors) is checked on every run to be a one-statement
+   forwarder -- the same-named operation of poly_obj() (static members: of poly_type) applied to the member's own parameters in order -- and
+   listed in gen/GenPolyP.v; the operations the other properties speak about are in that list.  Together with C14_source_handles: an operation
+   on a handle IS that operation on the payload, after detach() when the handle is not const. *)
+Theorem C14_source_forwarders : (forall m, List.In m GenPolyPEq.forwarders_needed -> List.In m GenPolyP.gen_pp_forwarders) /\ (39 <= length GenPolyP.gen_pp_forwarders)%nat.
+Proof. exact GenPolyPEq.forwarders_cover. Qed.
+Print Assumptions C14_source_forwarders.
